@@ -327,3 +327,29 @@ impl deser::ReadNoStd for CountingSrc<'_> {
         Ok(())
     }
 }
+
+/// An `io::Write` with a fixed capacity that, like `&mut [u8]` and `Cursor<&mut [u8]>`,
+/// accepts what fits and then *rejects by returning `Ok(0)`* (std's `write_all` turns
+/// that into `ErrorKind::WriteZero`).
+pub struct FullWriter<const N: usize> {
+    pub buf: [u8; N],
+    pub len: usize,
+    pub cap: usize,
+}
+impl<const N: usize> FullWriter<N> {
+    pub fn new(cap: usize) -> Self {
+        Self { buf: [0xAA; N], len: 0, cap }
+    }
+}
+impl<const N: usize> std::io::Write for FullWriter<N> {
+    fn write(&mut self, b: &[u8]) -> std::io::Result<usize> {
+        let room = self.cap - self.len;
+        let take = if b.len() < room { b.len() } else { room };
+        self.buf[self.len..self.len + take].copy_from_slice(&b[..take]);
+        self.len += take;
+        Ok(take)
+    }
+    fn flush(&mut self) -> std::io::Result<()> {
+        Ok(())
+    }
+}
